@@ -19,6 +19,7 @@ struct CellStats {
     int throwsLeft = 0;       // remaining injected throws in this execution (param maxthrows)
     int copyThrowsLeft = 0;   // remaining injected throws in copy / assignment (param copythrows)
     bool quietCtor = true;    // construction / destruction by the driver thread is silent
+    bool midThrows = true;    // user code may also throw half-way through a modification (leaving a torn value)
     bool loudLife = false;    // value construction / destruction are steps with ctor / dtor events (C04, C16)
 };
 inline CellStats g_cell;
@@ -88,7 +89,8 @@ class Cell {
         long old = a;
         a = f(a);
         log_ev("wb", "cell", id, old, a, alive ? 0 : 1);
-        if (step_may_throw("we", g_cell.throwsLeft)) {
+        int none = 0;
+        if (step_may_throw("we", g_cell.midThrows ? g_cell.throwsLeft : none)) {
             log_ev("throw", "cell", id, a, 1);
             throw CellThrow();
         }
